@@ -351,7 +351,7 @@ RULE = (
     'F1 (sim, mpservice.threading.Thread): ending in {return v, raise E(args) incl. KeyboardInterrupt and a class with 3 required constructor arguments, sys.exit(None|0|n|"text")} after 0/10/30 virtual ms; '
     'generated sequences of 1-6 accessors {join, result, exception, done, is_alive, wait, as_completed, and timed variants (5 ms)} with generated gaps, started right after start() (racing the thread start-up) under owned schedules. '
     'F2 (real, mpservice Process): the table ending{return, raise, raise(3-arg class), sys.exit x4, unpicklable result} + {return, raise} x kill{SIGKILL, SIGABRT, SIGUSR1, terminate()} x phase{before target, during, after result sent} (32 cells) '
-    'with a generated permutation of {join, result, exception, done, exitcode, wait, as_completed}. Oracle: expectation table for orderly endings; cross-accessor consistency for kills/unpicklables; every accessor returns. '
+    'with a generated permutation of {join, result, exception, done, exitcode, wait, as_completed}; generated perturbations: the child lingers 2.5 s after its outcome was sent (then wait/as_completed first and the other accessors must agree within 1.5 s), the thread that reaps the child is delayed 300 ms after waitpid, the Process object is collected while a thread holds the lock of threading.py start/stop critical section (must not dead-lock). Oracle: expectation table for orderly endings; cross-accessor consistency for kills/unpicklables; every accessor returns. '
     'Non-trivial: anything but "return, not killed"; distinct by (cell or ending, first accessor, exception class, schedule prefix).'
 )
 
